@@ -931,6 +931,20 @@ func (g *gen) stmts(depth int, node int) []Stmt {
 			x -= w
 			return false
 		}
+		if cfg.RichExpr && r.Intn(9) == 0 {
+			// a call of a converted function that is refused for a LATER argument (earlier ones were already
+			// converted), then good calls of the same function: each call gets exactly its own arguments
+			fn := []string{"cadd", "csum"}[r.Intn(2)]
+			bad := []*Expr{eNum(10, 1), eStr("two")}
+			if fn == "csum" && r.Intn(2) == 0 {
+				bad = []*Expr{eNum(1, 1), eNum(2, 1), eBool(true)}
+			}
+			g.lineNo++
+			out = append(out, Stmt{K: "set", Var: "y", Op: "=", E: eCall(fn, bad...)},
+				Stmt{K: "line", Text: []Part{{Lit: fmt.Sprintf("L%d ", g.lineNo)}, {E: eCall(fn, eNum(3, 1), eNum(4, 1))}, {Lit: " and "},
+					{E: eCall(fn, eNum(r.Intn(5), 1), eVar("x"))}}})
+			continue
+		}
 		if cfg.RichExpr && r.Intn(6) == 0 {
 			// operands keep the value they had when they were read: $x is read, THEN a host function
 			// writes $x through the storer, in the same expression / argument list
